@@ -228,6 +228,14 @@ def check(model, rep):
     n = frames.check_methods(rep, 'R08.6', dyn)
     rep.count('R08.6 relative transforms with both frames known', n)
     rep.floor('R08.6', 'typed relative transforms in the dynamics methods', n, 1)
+    # ---------------------------------------------------------------- R08.7
+    from . import memocoh
+    rep.rule('R08.7', 'dynamics methods of Arm keep nothing between calls that a configuration setter can outdate: every method that writes a '
+             'field a kept value was computed from also discards the kept value (def-use closure over Arm and its bases)')
+    arm0 = model.cls(ARM, 'Arm')
+    dyn0 = [fi for name, fi in sorted(arm0.methods.items()) if 'ynamics' in name or name in ('massMatrix', 'coriolisGravity', 'jacobianLink')]
+    memocoh.check(rep, 'R08.7', arm0, dyn0, 'torques / mass matrix / accelerations of an arm whose link frames, screws or inertias were changed')
+    rep.floor('R08.7', 'dynamics methods scanned', len(dyn0), 3)
 
 
 def _strip(e):
